@@ -16,8 +16,8 @@ func init() {
 		var vs []Variant
 		for _, n0 := range []int{1, 2} {
 			for _, pickers := range []int{2, 3} {
-				for _, re := range []string{"none", "grow", "shrink", "random", "grow+shrink"} {
-					if re == "shrink" && n0 == 1 {
+				for _, re := range []string{"none", "grow", "shrink", "random", "grow+shrink", "flap-up", "flap-down"} {
+					if (re == "shrink" || re == "flap-down") && n0 == 1 {
 						continue
 					}
 					if pickers == 3 && re == "grow+shrink" {
@@ -68,6 +68,12 @@ func pollmgrScenario(n0, pickers int, reconfig string) *vsched.Scenario {
 			case "random":
 				netpoll.SetLoadBalance(netpoll.Random)
 				isRR = false
+			case "flap-up": // two settings in one gap: the last one counts
+				netpoll.SetNumLoops(n + 1)
+				netpoll.SetNumLoops(n)
+			case "flap-down":
+				netpoll.SetNumLoops(n - 1)
+				netpoll.SetNumLoops(n)
 			}
 			configured = append(configured, n)
 			rr = append(rr, isRR)
